@@ -187,10 +187,10 @@ func mergeASAACLs(ab *cmdsPair, name, prefix string) {
 		i := len(acl) - 1
 		for ; i >= 0; i-- {
 			if strings.Contains(acl[i].parsed, "$NAME extended permit") {
-				i++
 				break
 			}
 		}
+		i++
 		acl = append(acl[:i], append(appendACL, acl[i:]...)...)
 	}
 	// Store changed ACL.
@@ -222,10 +222,10 @@ func mergeIOSACLs(ab *cmdsPair, name, prefix string) {
 		i := len(acl) - 1
 		for ; i >= 0; i-- {
 			if strings.HasPrefix(acl[i].parsed, "permit ") {
-				i++
 				break
 			}
 		}
+		i++
 		acl = append(acl[:i], append(appendACL, acl[i:]...)...)
 	}
 	// Store changed ACL.
